@@ -224,29 +224,36 @@ static void check_divdif()
     tables.push_back(t);
   }
   for (size_t ti = 0; ti < tables.size(); ti++) {
-    auto & A = tables[ti];
-    int n = (int)A.size();
-    for (int MM = 1; MM <= 5; MM++)
+    // every table length from the minimum (2 nodes) up: with n nodes a degree-(n-1) interpolation is admissible, the
+    // routine clamps the requested degree to min(MM, 10, n-1)
+    for (int n = 2; n <= (int)tables[ti].size(); n++) {
+    std::vector<double> A(tables[ti].begin(), tables[ti].begin() + n);
+    for (int MMreq = 1; MMreq <= 11; MMreq++) {
+      int MM = std::min(std::min(MMreq, 10), n - 1);
+      if (MMreq > 6 && MMreq < 10) continue;
       for (int deg = 0; deg <= MM + 1; deg++) {
         std::vector<double> F(n);
         auto poly = [&](double x) { double s = 0; for (int d = 0; d <= deg; d++) s += (d + 1) * std::pow(x - 0.3, d) * (d % 2 ? -1 : 1); return s; };
         for (int i = 0; i < n; i++) F[i] = poly(A[i]);
         double lo = std::min(A.front(), A.back()), hi = std::max(A.front(), A.back());
         double worst = 0;
+        double tol = MM <= 5 ? 1e-10 : 1e-7; // conditioning of high-degree divided differences on the uneven table
         for (int s = 0; s <= 40; s++) {
           double x = lo + (hi - lo) * s / 40.0;
-          double r = bxdecay0::decay0_divdif(F.data(), A.data(), n, x, MM);
+          double r = bxdecay0::decay0_divdif(F.data(), A.data(), n, x, MMreq);
           double ex = poly(x);
           g_eval++;
           double rel = std::fabs(r - ex) / (1 + std::fabs(ex));
           worst = std::max(worst, rel);
           if (deg <= MM) {
             g_nontrivial++;
-            if (rel > 1e-10) V(fmt("divdif:table%zu:MM%d", ti, MM), fmt("decay0_divdif(table %zu, MM=%d) at x=%g: polynomial of degree %d reproduced with error %.3g", ti, MM, x, deg, rel));
+            if (rel > tol) V(fmt("divdif:table%zu:n%d:MM%d", ti, n, MMreq), fmt("decay0_divdif(table %zu, first %d nodes, MM=%d) at x=%g: polynomial of degree %d reproduced with error %.3g", ti, n, MMreq, x, deg, rel));
           }
         }
-        if (deg == MM + 1 && worst < 1e-10) V(fmt("divdif:control:MM%d", MM), fmt("negative control failed: degree %d reproduced exactly with MM=%d", deg, MM));
+        if (deg == MM + 1 && n > MM + 1 && worst < 1e-10) V(fmt("divdif:control:MM%d", MM), fmt("negative control failed: degree %d reproduced exactly with MM=%d", deg, MM));
       }
+    }
+    }
   }
 }
 
